@@ -141,6 +141,8 @@ impl Tracer {
             };
 
             debug!(target: "tracer", "received new thread status: {status:?}");
+            #[cfg(feature = "verif")]
+            crate::verif::delay_point("tracer.after_waitpid");
             if let Some(stop) = self.apply_new_status(tcx, status)? {
                 // if stop fired by quiet signal - go to next iteration, this will inject signal at
                 // a tracee process and resume it
@@ -193,6 +195,8 @@ impl Tracer {
             return Ok(());
         }
         self.lock_group_stop();
+        #[cfg(feature = "verif")]
+        crate::verif::delay_point("tracer.before_group_stop");
 
         debug!(
             target: "tracer",
@@ -217,6 +221,8 @@ impl Tracer {
 
         // two rounds, cause may be new tracees at first round, they stopped at round 2
         for _ in 0..2 {
+            #[cfg(feature = "verif")]
+            crate::verif::delay_point("tracer.group_stop_round");
             let tracees = self.tracee_ctl.snapshot();
 
             for tid in tracees.into_iter().map(|t| t.pid) {
